@@ -243,7 +243,12 @@ def run(ctx):
     try:
         r = gen_c03.generate()
     except gen_c03.Unrecognised as e:
-        raise RuntimeError('translator stopped (fail closed): %s' % e)
+        # a translator that cannot cope is a failed obligation, not an aborted run: the proofs are re-checked on the tables
+        # generated last, and the run is reported as not passing
+        ctx.obligation('tables regenerated from the working tree', False, 'translator', str(e)[:600])
+        ctx.pending_broken = {'kind': 'translator', 'what': 'translator stopped (fail closed): %s' % str(e)[:400]}
+        ctx.coq()
+        return
     if not ctx.coq():
         ctx.broken_proof()
     elif ctx.thorough:
